@@ -167,6 +167,7 @@ def run(repo: Repo, L: Ledger, tier: str):
             L.check(bad3 is None, "R3", m.short, "only terminal pops / terminal replacement", f"rows mutated by a non-terminal operation ({bad3[0] if bad3 else ''})", m.loc(bad3[1]) if bad3 and bad3[1] is not None else m.loc())
     L.extra["paths"] = n_paths
 
+    _ownership(repo, L, ovr)
     _r2(repo, L, ovr, frag, summaries)
     _r4(repo, L, ovr, direct)
     _r5(repo, L, ovr, frag, tier)
@@ -457,3 +458,48 @@ def _r6(repo, L, ovr, frag, iters):
                     detail = f"with {k} gap row(s) after the removed {label} row: what-if gives {sorted(wi_vals.get(k, []))}, after {do}() the {fig} is {sorted(do_vals.get(k, []))}"
                     break
         L.check(ok, "R6", f"OverlapResult.{what_if}", f"== {fig} after {do}() for 0..{max(common) if common else 0} stripped gaps", detail or "what-if and do have no comparable paths", wf.loc())
+
+
+def _fresh_list(e, param=None) -> bool:
+    """Does the expression build a new list (so the holder owns it)?"""
+    if isinstance(e, ast.List | ast.ListComp):
+        return True
+    if isinstance(e, ast.Call) and dotted(e.func) in ("list", "sorted") and e.args:
+        return True
+    if isinstance(e, ast.Subscript) and isinstance(e.slice, ast.Slice):
+        return True
+    if isinstance(e, ast.IfExp):
+        return _fresh_list(e.body, param) and _fresh_list(e.orelse, param)
+    if isinstance(e, ast.BinOp) and isinstance(e.op, ast.Add):
+        return True
+    return False
+
+
+def _ownership(repo, L, ovr):
+    """The mutating operations edit `self.rows` in place, so an overlap result must OWN its row list:
+    either the Scaffold constructor copies the rows it is given, or every construction site of an
+    OverlapResult hands over a fresh list (slice / literal).  A shared list would let discard/trim edit
+    the indexed source scaffold behind its index."""
+    scf = repo.cls("Scaffold")
+    init = scf.methods.get("__init__")
+    rp = next((p for p in init.params()[1:] if p == "rows"), None)
+    stores = [n for n in walk_shallow(init.node) if isinstance(n, ast.Assign) and any(norm(t) == "self.rows" for t in n.targets)]
+    copies = bool(stores) and all(_fresh_list(n.value) for n in stores)
+    if copies:
+        L.ok("R3", "Scaffold.__init__:owns-rows", "constructor stores a copy of the rows it is given", init.loc())
+        return
+    bad = []
+    n_sites = 0
+    for f in repo.functions.values():
+        for c in repo.calls_in(f):
+            if dotted(c.func) in ("OverlapResult",):
+                n_sites += 1
+                a = next((k.value for k in c.keywords if k.arg == "rows"), None)
+                if a is None and len(c.args) > 1:
+                    a = c.args[1]
+                defs = [a]
+                if isinstance(a, ast.Name):
+                    defs = [n.value for n in walk_shallow(f.node) if isinstance(n, ast.Assign) and is_name(n.targets[0], a.id)]
+                if not defs or not all(_fresh_list(d) for d in defs):
+                    bad.append(f"{f.short}: rows={[norm(d)[:50] for d in defs]}")
+    L.check(not bad and n_sites > 0, "R3", "OverlapResult:owns-rows", "every overlap result is built from a fresh row list", f"the Scaffold constructor keeps the caller's list ({[norm(n.value)[:60] for n in stores]}) and an overlap result is built from a list it does not own ({bad[:1]}): discard/trim then edit the indexed source scaffold in place while its index goes stale", init.loc(), witness={"history": "bait covering a whole scaffold → lookup → discard_end() → second lookup on the same scaffold"})
